@@ -8,7 +8,7 @@ LEVEL = "exploration"
 RULE = ("deterministic landscapes incl. plateaus/ties (staircase, constant), kinks, optimum on/outside the boundary x geometry "
         "x constraint x options that keep the default incumbent policy; offline checker over the boundary call log [(x_k,y_k)]: "
         "result.x bitwise among x_k, result.fval == y_k there, min_k y_k >= result.fval, fsd == 0, target_type, recorded fval "
-        "non-increasing (all exact). Non-trivial: the run had >= 2 polls and >= 2 searches and >= 40 evaluations; distinct = "
+        "non-increasing (all exact). Non-trivial: the run had >= 2 polls, >= 40 evaluations and >= 2 searches (or search disabled: poll-heavy family); distinct = "
         "distinct (D, geometry, start, landscape, location, constraint, options signature)")
 RUN_KW = {"quick": dict(timeout_case=150, wall_cap=700), "thorough": dict(timeout_case=400, wall_cap=3300)}
 ASSUMPTIONS = ["default improvement policy (sloppy_improvement, improvement_quantile, stobads untouched) as the statement requires"]
@@ -33,6 +33,13 @@ def cases(tier, seed):
             opts["tol_mesh"] = float(rng.choice([1e-2, 1e-3]))
         if rng.random() < 0.1:
             opts["nonlinear_scaling"] = False
+        if rng.random() < 0.25:
+            # poll-heavy family: complete polls without search steps on anisotropic targets, so that one poll
+            # step sees several improving points of different quality
+            opts["complete_poll"] = True
+            opts["search_n_try"] = 0
+            land = str(rng.choice(["wl1", "quad", "rosen", "bowl4"], p=[0.4, 0.3, 0.15, 0.15]))
+            D = max(D, 2)
         cons = str(rng.choice(["none", "ball", "halfspace", "annulus"], p=[0.7, 0.1, 0.1, 0.1]))
         x0mode = str(rng.choice(["in", "none", "onlb", "onub", "outpl"], p=[0.5, 0.15, 0.15, 0.1, 0.1]))
         if cons != "none":
@@ -76,7 +83,8 @@ def run_case(case):
 def summarize(records, tier, seed):
     nt = set()
     for r in records:
-        if r.get("status") == "ok" and (r.get("n_polls") or 0) >= 2 and (r.get("n_searches") or 0) >= 2 and (r.get("ncalls") or 0) >= 40:
+        if r.get("status") == "ok" and (r.get("n_polls") or 0) >= 2 and (r.get("ncalls") or 0) >= 40 and (
+                (r.get("n_searches") or 0) >= 2 or r["case"]["spec"]["options"].get("search_n_try") == 0):
             o = r["case"]["spec"]["options"]
             nt.add(C.sig_of(r["case"], tuple(sorted(k for k in o if k not in ("display", "random_seed", "max_fun_evals")))))
     cnt = C.count_sum(records, "C04.")
